@@ -1,6 +1,104 @@
-(* C13 — writes are atomic, durable once acknowledged, and leave the log repairable. *)
-From DV Require Import Run_C13 C13P.
+(* C13 — Writes are atomic, durable once acknowledged, and leave the log repairable.
+   Property theorems only: statement, exact, Print Assumptions.  Proofs: proofs/WriterP.v, proofs/C13P.v.
+   Model: model/Writer.v (run_batch = BufferedDatabaseWriter::process_batch_write + the point in front of
+   the acknowledgement loop; ack_req = the acknowledgement loop and the authorisation actor's second
+   validation), parameterised by the statement skeleton GENERATED from the Rust source
+   (gen/WriterSkeleton.v : code_skeleton).  Assumed: SQLite's transaction contract (see Writer.v). *)
+From DV Require Import Run_C13 WriterP C13P.
 
-Theorem C13_skeleton_obligations : sk_ok code_skeleton = true.
-Proof. exact code_skeleton_ok. Qed.
+(* the property at full strength, for the cases the harness evaluates (one fault per run) *)
+Definition C13_full : Prop := forall c, wf_case c = true -> spec_C13 c (run_C13 c) = true.
+
+(* (0) structural obligations over the skeleton regenerated from src/database/sqlite_database.rs on every
+   run: BEGIN, loop, daily_log.write, COMMIT in this order (the marks are written in the same transaction,
+   before COMMIT); every message kind has its arm, every statement group's error exit issues ROLLBACK;
+   the acknowledgement loop runs on the result, Ok branch sends Ok, Err branch sends Err, on the same route;
+   the H4 points cover every group, the marks, COMMIT and the acknowledgement *)
+Theorem C13_skeleton_obligations : sk_ok code_skeleton = true /\ points_complete code_skeleton = true.
+Proof. exact (conj code_skeleton_ok code_points_complete). Qed.
 Print Assumptions C13_skeleton_obligations.
+
+(* (1) atomicity of a batch, for every skeleton, every fault schedule, every batch length:
+   the disk is unchanged until COMMIT; Ok => applied; Err => unchanged; killed => one of the two *)
+Theorem C13_atomic_holds : forall sk sched n st b st' o n' last,
+  run_batch sk sched n st b = (st', o, n', last) ->
+  (w_disk st' = w_disk st \/ w_disk st' = txn_body sk b (w_disk st)) /\
+  (o = Returned true -> w_disk st' = txn_body sk b (w_disk st)) /\
+  (o = Returned false -> w_disk st' = w_disk st) /\
+  (forall c, o = Died c -> w_disk st' = if c then txn_body sk b (w_disk st) else w_disk st).
+Proof. exact batch_atomic. Qed.
+Print Assumptions C13_atomic_holds.
+
+(* (2) acknowledgement only after commit: a request acknowledged Ok lies in a committed batch
+   (any number of batches, any schedule) *)
+Theorem C13_ack_after_commit_holds : forall sk sched bs n st au, sk_ok sk = true ->
+  Forall (fun x => it_ack x = Some true -> it_committed x = true) (rr_items (run_batches sk sched n st au bs)).
+Proof. exact ack_after_commit. Qed.
+Print Assumptions C13_ack_after_commit_holds.
+
+(* (3) marks inside the transaction => the log is repairable: whatever the schedule (kills and statement
+   failures at any points), the committed log keeps "every entry that does not describe the rows is marked",
+   and the recompute that every start requests makes it consistent with the stored rows *)
+Theorem C13_repair_holds : forall sk sched bs n st au,
+  (forall r, In r (concat bs) -> Covers sk r) -> LogInv (w_disk st) ->
+  LogInv (w_disk (rr_state (run_batches sk sched n st au bs))) /\
+  Consistent (restart (rr_state (run_batches sk sched n st au bs))).
+Proof. exact log_repairable. Qed.
+Print Assumptions C13_repair_holds.
+
+(* (4) the whole statement for EVERY fault schedule, outside the known class: per request all or nothing,
+   the same before and after restart, acknowledged => applied, reported failed => not applied; log repairable *)
+Theorem C13_every_schedule_outside_known : forall sk sched batches unsent d0,
+  sk_ok sk = true ->
+  NoDup (map op_key (flat_map req_ops (concat batches ++ unsent))) ->
+  (forall o, In o (flat_map req_ops (concat batches ++ unsent)) -> reflected d0 o = false) ->
+  (forall q, In q (concat batches ++ unsent) -> req_shape q = true) ->
+  (forall q, In q (concat batches) -> Covers sk q) ->
+  LogInv d0 ->
+  k2 false (concat batches) = false ->
+  let r := run_batches sk sched 0%N {| w_disk := d0; w_stuck := false |} true batches in
+  let d' := w_disk (rr_state r) in
+  map it_req (rr_items r) = concat batches /\
+  (forall x, In x (rr_items r) ->
+     vis d' (it_req x) = (if it_committed x || quiet (it_req x) then 1 else 0) /\
+     vis (restart (rr_state r)) (it_req x) = vis d' (it_req x) /\
+     (it_ack x = Some true -> it_committed x = true) /\
+     (it_ack x = Some false -> it_committed x = false)) /\
+  (forall q, In q unsent -> vis d' q = if quiet q then 1 else 0) /\
+  LogInv d' /\ Consistent (restart (rr_state r)).
+Proof. exact every_schedule. Qed.
+Print Assumptions C13_every_schedule_outside_known.
+
+(* (5) the same about the functions the harness evaluates: the oracle holds on what the model observes *)
+Theorem C13_outside_known : forall c,
+  wf_case c = true -> known_C13 c = [] -> spec_C13 c (run_C13 c) = true.
+Proof. exact spec_outside_known. Qed.
+Print Assumptions C13_outside_known.
+
+(* (6) the full statement is refuted by the faithful model (class 1: the second validation of a room
+   mutation after commit); the witness is the directed case the harness replays on the real code *)
+Theorem C13_refuted : ~ C13_full.
+Proof. intros H. destruct k2_refutes as [Hw [Hs _]]. rewrite (H k2_witness Hw) in Hs. discriminate. Qed.
+Print Assumptions C13_refuted.
+Example C13_refuted_witness_in_class : known_C13 k2_witness = [1].
+Proof. exact (proj2 (proj2 k2_refutes)). Qed.
+Print Assumptions C13_refuted_witness_in_class.
+
+Example C13_nonvacuous :
+  wf_case nonvacuous_case = true /\ known_C13 nonvacuous_case = [] /\
+  run_C13 nonvacuous_case = [1; -1; 1;  0; -1; 1;  0; -1; 1;  0; -1; 1;  0; -1; 0;  0; 6; 1; 1; 1; 1; 1].
+Proof. exact nonvacuous. Qed.
+Print Assumptions C13_nonvacuous.
+
+(* (7) K1, as the code is (daily_log.write / COMMIT leave through `?` without ROLLBACK): a connection left
+   inside a transaction reports every later batch failed and changes nothing until restart. Not a violation
+   of C13 (nothing partial becomes visible) - the loss of service belongs to C14 *)
+Theorem C13_K1_wedged_until_restart :
+  (sk_marks_rollback code_skeleton = false /\ sk_commit_rollback code_skeleton = false) /\
+  (exists sched, let '(st', o, _, _) := run_batch code_skeleton sched 0 {| w_disk := init_disk []; w_stuck := false |} [k1_req] in
+                 w_stuck st' = true /\ o = Returned false) /\
+  (forall sk sched n st b st' o n' last,
+     w_stuck st = true -> run_batch sk sched n st b = (st', o, n', last) ->
+     st' = st /\ (o = Returned false \/ o = Died false)).
+Proof. exact (conj code_no_rollback_after_marks_or_commit (conj wedge_reachable wedged_forever)). Qed.
+Print Assumptions C13_K1_wedged_until_restart.
